@@ -893,4 +893,20 @@ theorem merge_keeps_every_tag_verdict (ι : String → Nat) {env src : Prog} {e 
     simp only [toCInput, List.getElem?_map, hs'', nameIdx_get hmem, Option.map_some]
 
 
+/-- the hypothesis `hresP` of the table theorems, from a well-formedness condition of the input alone: if the
+    program's resource list names all its resource types (what `collect_resource_names` computes), the shaken
+    program's resource names occur among the original ones -/
+theorem shake_resources_listed {P : Prog} {e : Nat} {out : ShakeOut} (h : treeShake P e = some out)
+    (hl : ∀ (t : Nat) (n : String), P.types[t]? = some (.resource n) → n ∈ P.resources.toList) :
+    ∀ n ∈ out.prog.resources.toList, n ∈ P.resources.toList := by
+  intro n hn
+  obtain ⟨_, _, _, _, _, _, _, _, hr⟩ := sweep_fns_builtins (treeShake_sweep h)
+  rw [hr] at hn
+  have hn' : n ∈ out.marks.resources := by
+    have : n ∈ sortStrAsc out.marks.resources := by simpa using hn
+    exact (sortStrAsc_perm _).mem_iff.mp this
+  obtain ⟨t, _, ht⟩ := reach_res_inv ((treeShake_keeps_only_reachable h).resources n hn')
+  exact hl t n ht
+
+
 end C10
